@@ -39,7 +39,7 @@ Theorems (Property.v; 18, all closed)
       set holds (ProofsB6/B7), a naive run records what each scope owns, on well-scoped traversals naive <= ghost
       (ProofsB8), and the naive scopes are exactly the nested graphs (ProofsB12/B13, custom induction))
       + C15_fix_post_unsorted_refuted (the scoping hypothesis is needed: known finding) + Example ex_sorted_hyps;
-      C15_fix_keeps_unique / C15_fix_keeps_unique_node (whole pass: main graph and functions meeting disjoint
+      C15_fix_keeps_unique / C15_fix_keeps_unique_node (+ C15_fix_keeps_unique_shared_refuted: disjointness is needed; whole pass: main graph and functions meeting disjoint
       values/nodes; the value may be met anywhere incl. only through an initializer dictionary; uniqueness only
       among what its graph's run meets) + C15_fix_keeps_unique_witness_fixed;
       C15_fix_only_names (the model state carries an opaque payload per value and per node fed from the
@@ -83,6 +83,9 @@ Findings (known_findings.d/C15.json)
   known          namefix-unclosed-initializer-capture   a function body reads an initializer `a` of the main graph whose
                  initializers are a, a_1 (not valid ONNX): the run over the function renames it to a_1 without having
                  pre-scanned the main graph's keys -> ValueError (C15_fix_total_unclosed_refuted).
+  known          namefix-shared-value-unique-lost       same cause, other symptom: main input x, initializer x (read by a
+                 function node whose output is the only value named x_1): the main run renames the initializer to x_1,
+                 the function run then renames the unique x_1 (C15_fix_keeps_unique_shared_refuted).
   known          namefix-unsorted-outer-capture         a subgraph reads an outer value produced by a later node:
                  two values of the outer graph keep the same name, modified=False.  A repair (name all node
                  outputs of a graph when it is entered) changes the numbering of fresh names in sorted graphs and
@@ -685,6 +688,23 @@ def unclosed(spec) -> bool:
     return False
 
 
+def shares_values(spec) -> bool:
+    """True when two top-level traversals (main graph, function bodies) meet a common value - e.g. a function body
+    reading a value of the main graph: outside the disjointness hypothesis of C15_fix_keeps_unique."""
+    seen: set = set()
+    for top in [spec["main"]] + spec["funcs"]:
+        met: set = set()
+        for gs in _graphs_of(top):
+            met.update(gs["ins"], gs["outs"], gs["inits"])
+            for n in gs["nodes"]:
+                met.update(v for v in n["ins"] if v is not None)
+                met.update(n["outs"])
+        if met & seen:
+            return True
+        seen |= met
+    return False
+
+
 def oracle_namefix(spec: dict, obs: dict) -> list[dict]:
     """The property clauses on the implementation's result.  Each failure is {kind, detail, ...}."""
     bad = []
@@ -761,7 +781,8 @@ def classify_namefix(spec: dict, obs: dict, bad: list[dict]) -> dict[str, list[d
             orig = spec["vnames"] if b["kind"] == "unique_lost" else spec["nnames"]
             now = obs["vn"] if b["kind"] == "unique_lost" else obs["nn"]
             if all(orig[t] != now[t] for t in b["taken_by"]):
-                key = "namefix-renames-unique-name"
+                key = "namefix-shared-value-unique-lost" if (b["kind"] == "unique_lost" and shares_values(spec)) \
+                    else "namefix-renames-unique-name"
         elif b["kind"] in ("dup_value", "shadow"):
             if illsc is None:
                 illsc = ill_scoped(spec)
